@@ -1040,6 +1040,8 @@ func (tr *FnTrans) privateViolations() []string {
 						okVal = v.IsNil()
 					case *ssa.Alloc:
 						okVal = v.Heap
+					case *ssa.MakeMap, *ssa.MakeSlice:
+						okVal = true
 					case *ssa.Extract:
 						if call, ok := v.Tuple.(*ssa.Call); ok {
 							if spec := tr.eng.lookupSpec(calleeName(call.Common()), call.Common()); spec != nil {
@@ -1061,14 +1063,45 @@ func (tr *FnTrans) privateViolations() []string {
 					if refs := x.Referrers(); refs != nil {
 						for _, r := range *refs {
 							switch u := r.(type) {
-							case *ssa.FieldAddr, *ssa.DebugRef:
+							case *ssa.FieldAddr, *ssa.DebugRef, *ssa.Lookup, *ssa.MapUpdate, *ssa.Range:
 							case *ssa.BinOp:
 								_ = u // comparison with nil
+							case *ssa.Call:
+								// handed to a callee that writes no memory (it cannot keep or change it)
+								cc := u.Common()
+								if b, isB := cc.Value.(*ssa.Builtin); isB && (b.Name() == "len" || b.Name() == "delete") {
+									continue
+								}
+								if spec := tr.eng.lookupSpec(calleeName(cc), cc); spec != nil && (spec.Pure || (spec.ModSet && len(spec.Modifies) == 0)) {
+									continue
+								}
+								out = append(out, fmt.Sprintf("value of a private variable is passed to %s at line %d", calleeName(cc), tr.fn.Prog.Fset.Position(r.Pos()).Line))
 							default:
 								out = append(out, fmt.Sprintf("pointer loaded from a private variable is used by %T at line %d", r, tr.fn.Prog.Fset.Position(r.Pos()).Line))
 							}
 						}
 					}
+				}
+			}
+		}
+	}
+	for _, mk := range tr.privateMakeMaps() {
+		found = true
+		if refs := mk.Referrers(); refs != nil {
+			for _, r := range *refs {
+				switch u := r.(type) {
+				case *ssa.DebugRef, *ssa.Lookup, *ssa.MapUpdate, *ssa.Range:
+				case *ssa.Call:
+					cc := u.Common()
+					if b, isB := cc.Value.(*ssa.Builtin); isB && (b.Name() == "len" || b.Name() == "delete") {
+						continue
+					}
+					if spec := tr.eng.lookupSpec(calleeName(cc), cc); spec != nil && (spec.Pure || (spec.ModSet && len(spec.Modifies) == 0)) {
+						continue
+					}
+					out = append(out, fmt.Sprintf("private map is passed to %s at line %d", calleeName(cc), tr.fn.Prog.Fset.Position(r.Pos()).Line))
+				default:
+					out = append(out, fmt.Sprintf("private map is used by %T at line %d", r, tr.fn.Prog.Fset.Position(r.Pos()).Line))
 				}
 			}
 		}
